@@ -621,16 +621,15 @@ fn generate_derived_packet_serializer<'a>(
 
 fn get_specialized_children<'a>(file: &'a ast::File, decl: &'a ast::Decl) -> Vec<&'a ast::Decl> {
     let mut children = Vec::new();
-    for d in &file.declarations {
-        if d.parent_id() == decl.id() {
-            let is_alias = d
-                .fields()
-                .all(|f| matches!(f.desc, ast::FieldDesc::Payload { .. } | ast::FieldDesc::Body));
-            if is_alias {
-                children.extend(get_specialized_children(file, d));
-            } else {
-                children.push(d);
-            }
+    // Source order, see ast::File::iter_children.
+    for d in file.iter_children(decl) {
+        let is_alias = d
+            .fields()
+            .all(|f| matches!(f.desc, ast::FieldDesc::Payload { .. } | ast::FieldDesc::Body));
+        if is_alias {
+            children.extend(get_specialized_children(file, d));
+        } else {
+            children.push(d);
         }
     }
     children
